@@ -48,7 +48,7 @@ def floors(tier):
                          "py_cpp_sequences_compared": n["cpp_log"] * h["cpp_log"],
                          "real_ticks_replayed": n["real"] * h["real"] * 2,
                          "real_threading_checks": n["real"] * h["real"] * 2,
-                         "control_missing_typeerror_checks": n["py_log"],
+                         "control_missing_typeerror_checks": n["py_log"], "real_units_with_filtering": max(1, n["real"] // 4),
                          "ticks_with_unsorted_readings": 20}}
 
 
@@ -248,7 +248,12 @@ def _real(R, rng, ctx):
                                    n_reading=(1, 2), depth=1, n_shared=(0, 1))
     b = build.Built(defn)
     md = rng.choice([0.05, 0.1, 0.5])
-    ekf = b.py_ekf(innovation_filtering=None, max_dt_sec=md, common_subexpression_elimination=False)
+    # half of the real-filter units run with innovation filtering on and gross outliers among the readings:
+    # a rejected reading is still a reading (the estimate is held at its timestamp)
+    k_real = None if rng.random() < 0.5 else rng.choice([1.0, 3.0])
+    if k_real is not None:
+        R.stats.inc("real_units_with_filtering")
+    ekf = b.py_ekf(innovation_filtering=k_real, max_dt_sec=md, common_subexpression_elimination=False)
     names = sorted(defn["state"])
     for h in range(HIST[ctx["tier"]]["real"]):
         log = CallLog()
@@ -265,7 +270,8 @@ def _real(R, rng, ctx):
                 for _ in range(rng.choice([0, 1, 2, 3])):
                     sn = rng.choice(sorted(defn["sensors"]))
                     rd_names = [str(q) for q in ekf.sensor_models[sn].readings]
-                    rds.append((held_t + rng.uniform(-1, 2) * md, sn, {r: rng.gauss(0, 1) for r in rd_names}))
+                    mag = 1.0 if (k_real is None or rng.random() < 0.5) else 1e4  # outliers get rejected
+                    rds.append((held_t + rng.uniform(-1, 2) * md, sn, {r: rng.gauss(0, 1) * mag for r in rd_names}))
                 ctl = ekf.Control(**{c: rng.gauss(0, 1) for c in defn["control"]}) if defn["control"] else None
                 log.calls.clear()
                 try:
